@@ -334,7 +334,27 @@ def path_of(e):
     if isinstance(e, ast.Call) and not e.args and not e.keywords and isinstance(e.func, ast.Attribute):
         b = path_of(e.func.value)
         return b + '.' + e.func.attr + '()' if b else None
+    if isinstance(e, ast.Call) and e.args and not e.keywords and isinstance(e.func, ast.Attribute) \
+            and e.func.attr in VALUE_GETTERS and all(isinstance(a, ast.Constant) and isinstance(a.value, (str, int)) for a in e.args):
+        # a getter with constant arguments reads one fixed slot of its receiver: recv.get_value('ISA12')
+        b = path_of(e.func.value)
+        return b + '.' + e.func.attr + '(' + ', '.join(repr(a.value) for a in e.args) + ')' if b else None
     return None
+
+
+VALUE_GETTERS = {'get_value', 'get'}
+# methods that do not change their receiver (every other method call invalidates what is known about getter slots)
+READONLY = {'get_value', 'get', 'get_seg_id', 'format', 'strip', 'rstrip', 'lstrip', 'upper', 'lower', 'startswith',
+            'endswith', 'is_empty', 'is_seg_id_valid', 'ele_len', 'is_composite', 'is_element', 'split', 'join',
+            'count', 'find', '__len__', 'get_path', 'keys', 'values', 'items', 'copy', 'index', 'isdigit'}
+
+
+def killed(path, k):
+    """does the kill `k` invalidate a fact about `path`?"""
+    if k.endswith('.@call'):
+        b = k[:-6]
+        return path.startswith(b + '.') and '(' in path[len(b):] and not path[len(b) + 1:].split('(')[0] in ('get_seg_id',)
+    return path == k or path.startswith(k + '.') or path.startswith(k + '[')
 
 
 MUTATORS = {'pop', 'clear', 'remove', 'popitem'}
@@ -454,6 +474,8 @@ def kills(node, modsum=None):
             p = path_of(n.func.value)
             if p and n.func.attr in MUTATORS:
                 k.add(p)
+            if p and n.func.attr not in READONLY:
+                k.add(p + '.@call')
             if p == 'self' and modsum is not None:
                 for attr in modsum.get(n.func.attr, ()):
                     k.add('self.' + attr)
@@ -514,7 +536,7 @@ def must_facts(cfg, modsum=None, use_exc=True, entry_facts=()):
             kcache[n.id] = kills(n, modsum)
         ks = kcache[n.id]
         if ks:
-            f = {x for x in inn if not any(x[1] == p or x[1].startswith(p + '.') or x[1].startswith(p + '[') for p in ks)}
+            f = {x for x in inn if not any(killed(x[1], p) for p in ks)}
         else:
             f = set(inn)
         if n.kind == 'test' and label in ('T', 'F'):
@@ -532,7 +554,7 @@ def must_facts(cfg, modsum=None, use_exc=True, entry_facts=()):
             if label == 'exc' and not use_exc:
                 continue
             o = out_edge(n, label, inn) if label != 'exc' else frozenset(
-                x for x in inn if not any(x[1] == p or x[1].startswith(p + '.') for p in kills(n, modsum)))
+                x for x in inn if not any(killed(x[1], p) for p in kills(n, modsum)))
             old = IN[s.id]
             new = o if old is None else (old & o)
             if new != old:
